@@ -66,15 +66,19 @@ def main():
         res["suite_passed"] = npass; res["suite_missing"] = missing[:10]
         shutil.copy(os.path.join(d, "demo_test.go"), demo_dst)
         race = " -race" if meta.get("property") == "C15" else ""
+        tg = re.search(r"-tags (\S+)", run)
+        if tg:
+            race += " -tags " + tg.group(1)
+            res["demo_build_tags"] = tg.group(1)
         fails = 0; runs = 3 if race else 1
         for _ in range(runs):
-            rc, out = sh(f"go test -vet=off -count=1{race} -run '^{test}$' ./{pkgdir}", timeout=1200)
+            rc, out = sh(f"go test -vet=off -count=1{race} -run '^{test}' ./{pkgdir}", timeout=1200)
             if rc != 0: fails += 1
         res["demo_with_patch_fail_runs"] = f"{fails}/{runs}"; res["demo_with_patch_tail"] = out[-600:]
         os.remove(demo_dst)
         sh("git checkout -q -- . && git clean -fdq")
         shutil.copy(os.path.join(d, "demo_test.go"), demo_dst)
-        rc, out = sh(f"go test -vet=off -count=1{race} -run '^{test}$' ./{pkgdir}", timeout=1200)
+        rc, out = sh(f"go test -vet=off -count=1{race} -run '^{test}' ./{pkgdir}", timeout=1200)
         res["demo_pristine_passes"] = rc == 0
         if rc != 0: res["demo_pristine_tail"] = out[-600:]
         os.remove(demo_dst)
